@@ -221,8 +221,14 @@ def body(prop, cfg, tier, seed, replay, scratch, violations, known_hits, notes, 
             "how": "python3 tools/check.py %s --replay <this file>" % prop})
         print("VIOLATION property=%s replay=%s" % (prop, p))
         reported += 1
+    seen_crash = set()
     for c in crashes:
         v = {"cls": "crash-" + c["kind"], "line": (c.get("died") or "") + " " + c.get("summary", ""), "died": c.get("died") or ""}
+        mm = re.search(r"during: \d+ (\S+ \S+)", c.get("died") or "")
+        sig = (c["kind"], mm.group(1) if mm else c.get("summary", ""))
+        if sig in seen_crash:
+            continue
+        seen_crash.add(sig)
         kf = is_known(v)
         if kf:
             if kf["id"] not in [k["id"] for k in known_hits]:
